@@ -112,6 +112,13 @@ fn map_many<K: Elem, V: Elem, const N: usize>(c: &mut Ctx, d: &mut MapDrv<K, V>,
         }
     }
     // the writes landed in exactly the requested entries (full comparison with the model) and the structure is intact
+    if d.skip_contents {
+        for id in ids.iter() {
+            let got = d.map.get(&KeyRef(*id)).map(|v| (v.id(), v.gen()));
+            let want = d.model.get(*id).map(|m| (m.v, m.vgen));
+            crate::check!(got == want, "{}: after the call key {} holds {:?}, the model {:?} (a write landed in the wrong entry)", what, id, got, want);
+        }
+    }
     d.validate(c, "get_many_mut");
 }
 
@@ -141,6 +148,42 @@ fn map_case<K: Elem, V: Elem>(c: &mut Ctx, rng: &mut Rng) {
             return;
         }
     }
+}
+
+/// Large tables (thousands of buckets, reached by growth or by reserve): request order and own-entry must hold there too.
+fn big_map_case<K: Elem, V: Elem>(c: &mut Ctx, rng: &mut Rng) {
+    use crate::plan::PlanBH;
+    let n = if c.is_miri() { 200u32 } else { *rng.pick(&[600u32, 4000, 9000, 20000]) };
+    let plan = *rng.pick(&[Plan::Mixed, Plan::Mixed, Plan::Ident, Plan::Stride]);
+    let reserve = if rng.chance(1, 2) { *rng.pick(&[0usize, 5000, 40000]) } else { 0 };
+    let mut d: MapDrv<K, V> = MapDrv::new(PlanBH::new(plan, rng.next()), (2 * n).min(K::ID_SPACE), reserve);
+    d.validate_every = u32::MAX;
+    d.skip_contents = true;
+    for id in 0..n {
+        let (k, kg) = d.mk_k(id);
+        let (v, vv, vg) = d.mk_v(rng);
+        d.map.insert(k, v);
+        d.model.insert(id, kg, vv, vg);
+    }
+    let mut desc = d.describe("C15 large table");
+    desc.set("entries", Json::i(n));
+    desc.set("reserved", Json::i(reserve));
+    c.describe(desc);
+    c.bump("large_table_cases");
+    let rounds = if c.is_miri() { 2 } else { 6 };
+    for _ in 0..rounds {
+        let kv = rng.chance(1, 2);
+        match rng.below(3) {
+            0 => map_many::<K, V, 2>(c, &mut d, rng, kv),
+            1 => map_many::<K, V, 3>(c, &mut d, rng, kv),
+            _ => map_many::<K, V, 4>(c, &mut d, rng, kv),
+        }
+        if crate::util::has_violation() {
+            return;
+        }
+    }
+    d.skip_contents = false;
+    d.validate(c, "C15 large table, final");
 }
 
 /// HashTable::get_many_mut with lawful and with sloppy equality closures (which may match several entries).
@@ -249,7 +292,16 @@ fn table_case<E: Elem>(c: &mut Ctx, rng: &mut Rng) {
 }
 
 pub fn run(c: &mut Ctx) {
-    c.run_scenarios(|c, idx, rng| match crate::util::mix(idx) % 6 {
+    c.run_scenarios(|c, idx, rng| match crate::util::mix(idx) % 24 {
+        6..=23 => match crate::util::mix(idx) % 6 {
+            0 => map_case::<P8, P8>(c, rng),
+            1 => map_case::<T24, T24>(c, rng),
+            2 => map_case::<B1, L200>(c, rng),
+            3 => table_case::<T24>(c, rng),
+            4 => table_case::<P8>(c, rng),
+            _ => table_case::<L200>(c, rng),
+        },
+        5 => big_map_case::<P8, P8>(c, rng),
         0 => map_case::<P8, P8>(c, rng),
         1 => map_case::<T24, T24>(c, rng),
         2 => map_case::<B1, L200>(c, rng),
